@@ -23,10 +23,7 @@ class C03(Prop):
             "documented normalisation (final only with a label), second dumps() byte-identical; non-trivial = distinct history")
     assumptions = ["json.load(json.dump(v, sort_keys=True)) = v with every dict in sorted key order, for JSON-representable v (stdlib "
                    "parser not modelled; the model's `reparse` is compared with the real loads() on every case)"]
-    partial = {"C03_roundtrip_final_dropped_partial":
-               "for a compose section with final=True but no label the theorem carries the explicit hypothesis that the normalised "
-               "section (label None, final False) validates as well; deriving it from the validity of the original needs a "
-               "'fields read' analysis of the generated rule list (true of the current rules: `final` is read only under `if self.label`)"}
+    partial = {}
 
     def cases(self, rng, tier, budget):
         f_rpms.reset_budget()
